@@ -6,6 +6,7 @@ independently.  Bounded-exhaustive small exact grids (tol = 0 for path lengths) 
 sequences with a rounding band.
 """
 import itertools
+import os
 import math
 
 import numpy as np
@@ -624,7 +625,71 @@ def k_threads(run, case):
         threads.check(run, case, jobs, "pair selection", "threads:pair-selection-not-reentrant")
 
 
-KINDS = {"threads": k_threads, "grid": k_grid, "random": k_random, "gridsel": k_replay_grid, "reuse": k_reuse,
+def k_abbrev(run, case):
+    """
+    The real evo_rpe executable with the pair-selection options in their abbreviated (prefix)
+    spelling (--all, --delta_u, --delta_t, --pairs_from_ref): the run is either refused (non-zero
+    exit, nothing stored) or selects exactly the pairs of the fully spelled command - an option is
+    never dropped silently.
+    """
+    import shutil
+    import zipfile
+    import io as _io
+    from vmon import cli
+    from vmon.props import C01
+    rng = run.rng(case)
+    work = os.path.join(os.environ.get("VMON_WORK", "."), "c10ab_%d" % case["rs"][-1])
+    os.makedirs(work, exist_ok=True)
+    try:
+        fp = C01.make_file_pair(rng, "tum", work, n=int(rng.integers(12, 40)))
+        unit = "fmd"[rng.integers(3)]
+        delta = {"f": str(int(rng.integers(1, 4))), "m": repr(float(fp["ext"] * rng.uniform(0.05, 0.4))), "d": repr(float(rng.uniform(10, 90)))}[unit]
+        opts = [("--delta", "--delta", delta), ("--delta_unit", "--delta_u", unit)]
+        if rng.random() < .7:
+            opts.append(("--all_pairs", "--all", None))
+        if rng.random() < .5:
+            opts.append(("--delta_tol", "--delta_t", repr(float([0.05, 0.2, 0.4][rng.integers(3)]))))
+        if rng.random() < .3:
+            opts.append(("--pairs_from_reference", "--pairs_from_ref", None))
+        base = ["tum", os.path.basename(fp["ref_path"]), os.path.basename(fp["est_path"]), "--t_max_diff", repr(float(fp["dt"]) * 0.45),
+                "--t_offset", "%.9f" % fp["offset"], "--no_warnings"]
+
+        def run_one(which, out):
+            argv = list(base)
+            for full, short, val in opts:
+                argv.append(full if which == "full" else short)
+                if val is not None:
+                    argv.append(val)
+            pr = cli.run_subprocess("rpe", argv + ["--save_results", out], work, os.environ["HOME"])
+            path = os.path.join(work, out)
+            arrays = None
+            if os.path.exists(path):
+                with zipfile.ZipFile(path) as z:
+                    arrays = {n: np.load(_io.BytesIO(z.read(n))) for n in z.namelist() if n.endswith(".npy")}
+            return pr, arrays, argv
+
+        pf, af, argv_f = run_one("full", "full.zip")
+        pa, aa, argv_a = run_one("abbr", "abbr.zip")
+        run.seen(case, core.digest(open(fp["est_path"]).read(), [o[1] for o in opts], delta), cls=["evo_rpe executable: abbreviated pair-selection options"],
+                 sample={"abbreviated": argv_a[8:], "exit_full": pf.returncode, "exit_abbreviated": pa.returncode})
+        if pf.returncode != 0 or af is None:
+            run.hit("abbreviations: fully spelled run refused (no pair / ambiguous), not judged")
+            return
+        if pa.returncode != 0:
+            run.check(aa is None, "a refused abbreviated command stores nothing", case, "evo_rpe %s exited with %d but stored a result" %
+                      (argv_a, pa.returncode), key="abbrev:stored-after-refusal")
+            run.hit("abbreviations refused by the executable")
+            return
+        same = aa is not None and set(aa) == set(af) and all(aa[k].shape == af[k].shape and np.array_equal(aa[k], af[k]) for k in af)
+        run.check(same, "abbreviated options select the pairs of the fully spelled command", case,
+                  "evo_rpe %s stored other values / pair ends than %s (e.g. %d vs %d values)" %
+                  (argv_a[8:], argv_f[8:], len(aa.get("error_array.npy", [])) if aa else -1, len(af.get("error_array.npy", []))),
+                  key="abbrev:option-dropped")
+    finally:
+        shutil.rmtree(work, ignore_errors=True)
+
+
+KINDS = {"abbrev": k_abbrev, "threads": k_threads, "grid": k_grid, "random": k_random, "gridsel": k_replay_grid, "reuse": k_reuse,
          "metric_reuse": k_metric_reuse, "cli": k_cli}
 
 
@@ -656,6 +721,8 @@ def main(run):
                             force_unit="mrdf"[(i // 2) % 4]))
     for i in run.mine({"quick": 16, "thorough": 300}[run.tier]):
         k_threads(run, run.case("threads", i))
+    for i in run.mine({"quick": 10, "thorough": 120}[run.tier]):
+        k_abbrev(run, run.case("abbrev", i))
     # sizes beyond typical block / chunk sizes (1024, 2048): a few in the quick tier, more in thorough
     for i in run.mine({"quick": 8, "thorough": 48}[run.tier]):
         u, ap = [("r", 1), ("d", 1), ("m", 1), ("f", 1), ("r", 1), ("m", 0), ("d", 0), ("d", 1)][i % 8]
